@@ -33,8 +33,10 @@ fn free_port() -> u16 {
     // a port nobody listens on (the server sets SO_REUSEPORT: never share one)
     loop {
         let n = NEXT_PORT.fetch_add(1, Ordering::SeqCst);
-        let base = 21000 + (std::process::id() as u64 * 37) % 20000;
-        let port = (base + n) % 40000 + 20000;
+        // below the kernel's ephemeral range (32768..60999): a connect to a port in
+        // that range with nobody listening can connect to itself
+        let base = (std::process::id() as u64 * 37) % 20000;
+        let port = (base + n) % 20000 + 10000;
         let addr: SocketAddr = format!("127.0.0.1:{}", port).parse().unwrap();
         if TcpStream::connect_timeout(&addr, Duration::from_millis(200)).is_err() {
             return port as u16;
@@ -63,13 +65,16 @@ impl Server {
             let port = free_port();
             let addr: SocketAddr = format!("127.0.0.1:{}", port).parse().unwrap();
             let mut server = MemcacheTcpServer::new(cfg, store.clone());
+            let ended = Arc::new(std::sync::atomic::AtomicBool::new(false));
+            let ended2 = ended.clone();
             let task = rt.spawn(async move {
                 let _ = server.run(addr).await;
+                ended2.store(true, Ordering::SeqCst);
             });
             // wait until it listens
             let t0 = Instant::now();
             let mut up = false;
-            while t0.elapsed() < Duration::from_secs(10) {
+            while t0.elapsed() < Duration::from_secs(10) && !ended.load(Ordering::SeqCst) {
                 if let Ok(s) = TcpStream::connect_timeout(&addr, Duration::from_millis(500)) {
                     drop(s);
                     up = true;
@@ -77,7 +82,7 @@ impl Server {
                 }
                 std::thread::sleep(Duration::from_millis(2));
             }
-            if up {
+            if up && !ended.load(Ordering::SeqCst) {
                 break addr;
             }
             task.abort();
@@ -172,6 +177,21 @@ mod hook {
     }
 }
 
+/// Make the next close of this socket abortive (RST).
+pub fn abort(sock: &TcpStream) {
+    unsafe {
+        use std::os::unix::io::AsRawFd;
+        let l = libc::linger { l_onoff: 1, l_linger: 0 };
+        libc::setsockopt(
+            sock.as_raw_fd(),
+            libc::SOL_SOCKET,
+            libc::SO_LINGER,
+            &l as *const _ as *const libc::c_void,
+            std::mem::size_of::<libc::linger>() as u32,
+        );
+    }
+}
+
 pub struct ClientConn {
     pub sock: TcpStream,
     pub closed: bool, // the server closed its side (EOF or reset seen)
@@ -204,13 +224,14 @@ pub struct Driver {
     pub server: Server,
     pub conns: HashMap<usize, ClientConn>,
     pub stuck: u64,
+    pub why: String,
 }
 
 pub const WAIT: Duration = Duration::from_secs(15);
 
 impl Driver {
     pub fn new(server: Server) -> Driver {
-        Driver { server, conns: HashMap::new(), stuck: 0 }
+        Driver { server, conns: HashMap::new(), stuck: 0, why: String::new() }
     }
 
     /// Connect connection i if needed and wait until the server task waits in a read.
@@ -218,17 +239,22 @@ impl Driver {
         if self.conns.contains_key(&i) {
             return true;
         }
-        let pending0 = hook::begun() - hook::done();
+        self.why = String::new();
+        let begun0 = hook::begun();
         let sock = match TcpStream::connect_timeout(&self.server.addr, Duration::from_secs(2)) {
             Ok(s) => s,
-            Err(_) => return false,
+            Err(e) => {
+                self.why = format!("connect:{}", e).replace(' ', "_");
+                return false;
+            }
         };
         sock.set_nodelay(true).unwrap();
         sock.set_nonblocking(true).unwrap();
         self.conns.insert(i, ClientConn { sock, closed: false, rx: Vec::new() });
         let t0 = Instant::now();
-        while hook::begun() - hook::done() < pending0 + 1 {
+        while hook::begun() < begun0 + 1 {
             if t0.elapsed() > WAIT {
+                self.why = format!("no-read-begun:begun={}:begun0={}", hook::begun(), begun0);
                 return false; // not served (connection limit) or stuck
             }
             std::thread::sleep(Duration::from_micros(200));
@@ -348,6 +374,8 @@ pub fn run_case(
     trace: &mut String,
     obs: &mut String,
 ) -> u64 {
+    // reads pending before this case's server exists (tasks of earlier runtimes that were cut off)
+    let base_pending = hook::begun() - hook::done();
     let server = Server::start(cfg.item_limit, cfg.mem_limit, 64, 60, 2);
     let mut d = Driver::new(server);
     let ml = match cfg.mem_limit {
@@ -367,7 +395,7 @@ pub fn run_case(
                     continue;
                 }
                 if !d.ensure(i) {
-                    let _ = writeln!(obs, "NOT-SERVED {}", i);
+                    let _ = writeln!(obs, "NOT-SERVED {} {}", i, d.why);
                     continue;
                 }
                 if d.conns[&i].closed {
@@ -441,6 +469,14 @@ pub fn run_case(
     let stuck = d.stuck;
     if stuck > 0 {
         let _ = writeln!(obs, "STUCK {}", stuck);
+    }
+    // quiesce: close every client socket and let the server tasks see the end of
+    // their streams before the runtime goes away, so that no late read of this
+    // case is attributed to the next one
+    d.conns.clear();
+    let t0 = Instant::now();
+    while hook::begun() - hook::done() > base_pending && t0.elapsed() < Duration::from_secs(5) {
+        std::thread::sleep(Duration::from_micros(500));
     }
     d.server.stop();
     stuck
